@@ -13,7 +13,8 @@ from engine.core import res, violation, seed_offsets
 ID = "C09"
 LEVEL = "exploration"
 WORKERS = {"quick": 12, "thorough": 16}
-RULE = ("complete product system x {L1,L2} x N x 80 directions of {-1,0,1}^4 x 5-rung radius ladder for the round trip and the energy identity; "
+RULE = ("every sequence of <= 3 operations {to_synodic, to_cm, degree:=4, degree:=6, 2-D conversion} on one CenterManifold followed by a comparison of its conversions with a freshly built manifold of the current degree; "
+        "CenterManifoldMap: computed section A x requested section B (all 16 pairs + nothing computed); complete product system x {L1,L2} x N x 80 directions of {-1,0,1}^4 x 5-rung radius ladder for the round trip and the energy identity; "
         "4 section coordinates x 3x3 plane lattice x energy ladder for the 2-D conversion; non-trivial = ladder with >= 2 halvings above the floor; distinct = (system, point, N, direction | section point)")
 ASSUMPTIONS = [
     "reference energy E = v^2/2 - (x^2+y^2)/2 - (1-mu)/r1 - mu/r2 evaluated at the returned synodic state; E_L at the libration point",
@@ -161,7 +162,136 @@ def k_cm(params):
     return res(evals=n, nontrivial=nontriv, viol=list(viol.values()), stats=stats, sample={"tag": tag, "ladders": n, **{k: (round(v, 2) if isinstance(v, float) else v) for k, v in stats.items()}})
 
 
-KINDS = {"cm": k_cm}
+P4 = np.array([0.6, -0.45, 0.5, 0.4]) / np.linalg.norm([0.6, -0.45, 0.5, 0.4])
+SEC_IDX = {"q2": 0, "p2": 1, "q3": 2, "p3": 3}
+SEC_PLANE = {"q2": (2, 3), "p2": (2, 3), "q3": (0, 1), "p3": (0, 1)}
+
+
+def _probe(cm, r0, s_fixed):
+    """the conversions the property speaks about, on one object"""
+    p = 0.5 * r0 * P4
+    s = np.asarray(cm.to_synodic(p), dtype=float)
+    return {"to_synodic": s, "to_cm": np.asarray(cm.to_cm(s_fixed), dtype=float),
+            "to_synodic_2d": np.asarray(cm.to_synodic(np.array([0.02, -0.01]), energy=0.02, section_coord="q3"), dtype=float)}
+
+
+def k_cm_history(params):
+    """every sequence prefix + (<= extra further operations) over {to_synodic, to_cm, degree := 4, degree := 6, 2-D section conversion} on one
+    CenterManifold; afterwards its conversions must equal those of a freshly built manifold of the same (current) degree -- the fresh objects
+    themselves are what kind `cm` checks against the round-trip and energy statements"""
+    system = _system(params["system"])
+    Ln = params["point"]
+    viol = {}
+    n = nt = nseq = 0
+    r0 = params["r0"]
+    ops = ["TS", "TC", "D4", "D6", "S2"]
+    pt = system.get_libration_point(Ln)
+    gamma = float(pt.dynamics.gamma)
+    pos = np.asarray(pt.position, dtype=float)
+    s_fixed = np.array([pos[0] + 0.01 * gamma, 0.0, 0.005 * gamma, 0.0, 0.01 * gamma, 0.0])
+    twins = {}
+
+    def twin(N):
+        if N not in twins:
+            sys2 = _system(params["system"])
+            twins[N] = _probe(_L["CM"](sys2.get_libration_point(Ln), N), r0, s_fixed)
+        return twins[N]
+
+    def apply(cm, op):
+        if op == "TS":
+            cm.to_synodic(0.5 * r0 * P4)
+        elif op == "TC":
+            cm.to_cm(s_fixed)
+        elif op == "D4":
+            cm.degree = 4
+        elif op == "D6":
+            cm.degree = 6
+        elif op == "S2":
+            cm.to_synodic(np.array([0.02, -0.01]), energy=0.02, section_coord="q3")
+
+    for prefix in params["prefixes"]:
+        for depth in range(0, params["extra"] + 1):
+            for rest in itertools.product(ops, repeat=depth):
+                seq = tuple(prefix) + rest
+                system = _system(params["system"])
+                cm = _L["CM"](system.get_libration_point(Ln), params["N0"])
+                tag = "system=%s L%d, CenterManifold(degree %d) after the operations %s" % (params["system"], Ln, params["N0"], list(seq))
+                try:
+                    for op in seq:
+                        apply(cm, op)
+                    got = _probe(cm, r0, s_fixed)
+                    Ncur = int(cm.degree)
+                except Exception as exc:
+                    viol.setdefault("history/raises", violation("history/raises", "operation sequence raises %s: %s [%s]" % (type(exc).__name__, str(exc)[:120], tag), None, None, ("cm_history", params)))
+                    continue
+                want = twin(Ncur)
+                nseq += 1
+                for name in got:
+                    n += 1
+                    d = float(np.max(np.abs(got[name] - want[name])))
+                    if any(o in ("D4", "D6") for o in seq):
+                        nt += 1
+                    if d > 1e-11 * (1.0 + float(np.max(np.abs(want[name])))):
+                        key = "history/%s" % name
+                        viol.setdefault(key, violation(key, "%s of the long-lived object (current degree %d) differs from that of a freshly built degree-%d manifold by %.3e: %s vs %s [%s]" % (
+                            name, Ncur, Ncur, d, got[name].tolist(), want[name].tolist(), tag), got[name], want[name], ("cm_history", params)))
+    return res(evals=n, nontrivial=nt, viol=list(viol.values()), stats={"operation_histories": nseq}, sample={"system": params["system"], "point": Ln, "prefixes": params["prefixes"], "histories": nseq})
+
+
+def k_map_history(params):
+    """CenterManifoldMap: compute a map on section A (or nothing), then convert 2-D points with an explicitly requested section B, for every B:
+    the synodic state must lie on section B and on the map's energy level"""
+    from hiten.system.maps.center import CenterManifoldMap
+    from hiten.algorithms.poincare.centermanifold.options import CenterManifoldMapOptions
+    from hiten.algorithms.poincare.centermanifold.config import CenterManifoldMapConfig
+    from hiten.algorithms.types.options import IntegrationOptions, WorkerOptions
+    from hiten.algorithms.types.configs import IntegrationConfig
+    from hiten.algorithms.poincare.core.options import IterationOptions, SeedingOptions
+
+    system = _system(params["system"])
+    mu = float(system.mu)
+    Ln, N, h0 = params["point"], params["N"], params["energy"]
+    pt = system.get_libration_point(Ln)
+    gamma = float(pt.dynamics.gamma)
+    pos = np.asarray(pt.position, dtype=float)
+    EL = E_ref([pos[0], pos[1], pos[2], 0, 0, 0], mu)
+    cm = _L["CM"](pt, N)
+    H = cm.hamiltonian(N)
+    viol = {}
+    n = nt = 0
+    for computed in params["computed"]:      # list of sections computed beforehand, in order
+        pm = CenterManifoldMap(cm, h0)
+        for A in computed:
+            pm.config = CenterManifoldMapConfig(seed_strategy="axis_aligned", seed_axis=None, section_coord=A, integration=IntegrationConfig(method="fixed"))
+            opts = CenterManifoldMapOptions(integration=IntegrationOptions(dt=1e-2, order=4, max_steps=2000), iteration=IterationOptions(n_iter=1), seeding=SeedingOptions(n_seeds=3), workers=WorkerOptions(n_workers=1))
+            pm.compute(section_coord=A, options=opts)
+        for B in ("q2", "p2", "q3", "p3"):
+            tag = "system=%s L%d N=%d energy=%g: map computed on %s, then to_synodic(pt, section_coord=%s)" % (params["system"], Ln, N, h0, computed or "nothing", B)
+            rr = 0.3 * math.sqrt(h0)
+            for a, b in ((1, 0.5), (-0.6, 1)):
+                pt2 = np.array([a * rr, b * rr * 0.8])
+                n += 1
+                try:
+                    s = np.asarray(pm.to_synodic(pt2, section_coord=B), dtype=float)
+                except Exception as exc:
+                    viol.setdefault("map_history/raises", violation("map_history/raises", "to_synodic raises %s: %s [%s]" % (type(exc).__name__, str(exc)[:120], tag), None, None, ("map_history", params)))
+                    continue
+                p4 = np.asarray(cm.to_cm(s), dtype=float)
+                nt += 1
+                # discrepancies of the correct conversion are O(r^(N+1)) ~ 1e-7 here; a point lifted on another section is off by O(r) ~ 1e-2
+                tol = 1e-4 * rr
+                eS = abs(p4[SEC_IDX[B]])
+                eP = float(np.max(np.abs(p4[list(SEC_PLANE[B])] - pt2)))
+                eH = abs(complex(H(np.array([0.0, p4[0], p4[2], 0.0, p4[1], p4[3]]))).real - h0)
+                eE = abs((E_ref(s, mu) - EL) / gamma ** 2 - h0)
+                for name, e in (("on_section", eS), ("plane_coordinates", eP), ("on_energy_level", eH), ("reference_energy", eE)):
+                    if e > tol:
+                        key = "map_history/%s" % name
+                        viol.setdefault(key, violation(key, "%s discrepancy %.3e (tolerance %.1e; state back in centre-manifold coordinates %s, plane point %s) [%s]" % (name, e, tol, np.round(p4, 5).tolist(), pt2.tolist(), tag), e, tol, ("map_history", params)))
+    return res(evals=n, nontrivial=nt, viol=list(viol.values()), sample={"system": params["system"], "computed": params["computed"], "conversions": n})
+
+
+KINDS = {"cm": k_cm, "cm_history": k_cm_history, "map_history": k_map_history}
 
 
 def cases(tier, seed):
@@ -174,4 +304,13 @@ def cases(tier, seed):
             for N in Ns:
                 out.append(("cm", {"system": sysn, "point": Ln, "N": N, "r0": 0.12 * (1 + o[0]), "h0": 0.02,
                                    "dirs": "all", "rungs": 5}))
+    # operation histories on one CenterManifold (all sequences of <= 3 operations, split by the first one) and on one CenterManifoldMap
+    hops = ("TS", "TC", "D4", "D6", "S2")
+    out.append(("cm_history", {"system": ["earth", "moon"], "point": 1, "N0": 4, "prefixes": [[f] for f in hops], "extra": 0, "r0": 0.12 * (1 + o[0])}))
+    for f in hops:
+        for g in hops:
+            out.append(("cm_history", {"system": ["earth", "moon"], "point": 1, "N0": 4, "prefixes": [[f, g]], "extra": 1 if tier == "quick" else 2, "r0": 0.12 * (1 + o[0])}))
+    secs = ("q2", "p2", "q3", "p3")
+    for A in secs:
+        out.append(("map_history", {"system": ["earth", "moon"], "point": 1, "N": 4, "energy": 0.02, "computed": [[], [A]] + ([[A, B] for B in secs if B != A] if tier != "quick" else [])}))
     return out
